@@ -232,6 +232,9 @@ class C10(Prop):
             return f"valid call rejected: {io['err']}: {io.get('msg')}"
         nm = len(mos)
         per = len(io["rows"]) // nm
+        if case["fkind"] == "numeric" and case["method"] == "quantile" and tc.quantile_rank_divergent(case["feature"], case["n_bins"]):
+            self.float_rank_divergent = getattr(self, "float_rank_divergent", 0) + 1
+            return None  # np.nanquantile's float rank picks a neighbouring order statistic: outside the exact model (counted)
         if case["fkind"] == "numeric" and tc.uniform_edge_tie(case["method"], fvalues(case), mos[0]["rows"]):
             self.edge_ties_skipped = getattr(self, "edge_ties_skipped", 0) + 1
             return None  # float edge arithmetic of 'uniform' is outside the model (counted)
@@ -410,7 +413,7 @@ class C10(Prop):
         return None
 
     def extra_coverage(self):
-        return {"edge_ties_skipped": getattr(self, "edge_ties_skipped", 0), "pd_values_compared_with_model": getattr(self, "pd_compared", 0)}
+        return {"edge_ties_skipped": getattr(self, "edge_ties_skipped", 0), "float_rank_divergent": getattr(self, "float_rank_divergent", 0), "pd_values_compared_with_model": getattr(self, "pd_compared", 0)}
 
     def nontrivial(self, case, io):
         if "rows" not in io or len(io["rows"]) < 2:
